@@ -486,8 +486,10 @@ def run_accessors(ctx: Ctx) -> None:
         it = make_interp(ctx)
         a, cs = _angles(1)
         grid = it.new(Grid, size=(3, 3))
-        for kind in (True, False):
-            t = it.new(prog.cls(L, "EulerRotation"), grid, params=kind)
+        for kind in (True, False, "frozen"):
+            t = it.new(prog.cls(L, "EulerRotation"), grid, params=bool(kind))
+            if kind == "frozen":
+                it.method(t, "requires_grad_", False)
             ang = STensor.from_flat(a, [1, 1])
             it.method(t, "angles_", ang)
             if not teq(it.method(t, "angles"), ang):
@@ -545,18 +547,29 @@ def run_accessors(ctx: Ctx) -> None:
         ctx.fn(fS)
         ctx.fn(prog.find_method(ci, get))
         for D in (2, 3):
-            for kind in (True, False):
+            for kind in (True, False, "frozen"):
                 def ths(cls=cls, ci=ci, get=get, set_=set_, n=nparam(D), D=D, kind=kind):
                     reset_relations()
                     facts = fresh_facts()
                     it = make_interp(ctx)
                     grid = it.new(Grid, size=(3,) * D)
-                    t = it.new(ci, grid, params=kind)
+                    t = it.new(ci, grid, params=bool(kind))
                     vals = STensor.symbols("k", [1, n])
                     for v in vals.flat():
                         facts.declare_positive(v)
+                    if kind == "frozen":
+                        # a Parameter excluded from optimisation (requires_grad_(False)) keeps its squashed representation
+                        it.method(t, "requires_grad_", False)
+                        if not it.method(t, "has_parameters"):
+                            raise AnalysisError("frozen-parameter scenario: requires_grad_(False) no longer keeps the Parameter")
                     it.method(t, set_, vals)
                     if not teq(it.method(t, get), vals):
                         return False, f"{cls}.{set_}(v).{get}() = {tstr(it.method(t, get))[:120]} != v"
+                    if kind is True:
+                        before = it.method(t, "tensor")
+                        it.method(t, "requires_grad_", False)
+                        if not teq(it.method(t, get), vals) or not teq(it.method(t, "tensor"), before):
+                            return False, f"{cls}: freezing the parameters (requires_grad_(False)) changes {get}() / tensor()"
                     return True, ""
-                _guard(ctx, "T8.accessors", f"{cls}:D={D}:{kind}", fS, f"{cls} D={D} params={'parameter' if kind else 'buffer'}", ths)
+                _guard(ctx, "T8.accessors", f"{cls}:D={D}:{kind}", fS,
+                       f"{cls} D={D} params={'frozen parameter' if kind == 'frozen' else 'parameter' if kind else 'buffer'}", ths)
